@@ -74,7 +74,8 @@ contract(Contract(
         # first-line prefix unless a child consumed it, and the continuation prefix of the container); result = its output + newline
         "wrapped_once": Clause("logcount('WRAP') == 1 and logcount('RENDER_CHILDREN') == 1"
                                " and result == logres('WRAP') + '\\n'", props=["C01"]),
-        "wrapped_text": Clause(_paragraph_text, props=["C01"]),
+        # (C04: what the leaf methods rendered -- code spans, links, HTML -- reaches the wrapper unmodified)
+        "wrapped_text": Clause(_paragraph_text, props=["C01", "C04"]),
         "wrapped_with_prefixes": Clause("logarg('WRAP', 'subsequent') == old(self._second_prefix)"
                                         " and logarg('WRAP', 'initial') == old(self._prefix)"
                                         " and logarg('RENDER_CHILDREN', 'inline_text') == ''", props=["C01"]),
@@ -102,7 +103,7 @@ contract(Contract(
     ensures={
         # '#' * level, one space, the rendered children, on the first-line prefix; a heading that does not end in a hard
         # break is followed by one separator line that stays inside the container
-        "atx_line": Clause("result == head() or result == head() + rstrip(old(self._second_prefix)) + '\\n'", props=["C01"]),
+        "atx_line": Clause("result == head() or result == head() + rstrip(old(self._second_prefix)) + '\\n'", props=["C01", "C04"]),
         "separator_iff_no_hard_break": Clause(
             "implies(endswith(kids(), '\\\\'), result == head()) and"
             " implies(not endswith(kids(), '\\\\'), result == head() + rstrip(old(self._second_prefix)) + '\\n')", props=["C01"]),
